@@ -40,6 +40,8 @@ ObsViol(r) ==
         <<"C07", "set_delivered_twice", P_NoDup(c, g)>>,
         <<"C07", "not_every_set_delivered_before_end", P_AllDelivered(c, g, res)>>,
         <<"C07", "single_worker_order", P_InOrder1(c, g)>>,
+        \* the sets the reader produced before it failed reach a draining consumer too (C07), not only the error (C15)
+        <<"C07", "sets_read_before_the_error_not_all_delivered", P_ErrDrain(c, g, res)>>,
         <<"C07", "waiting_consumer_never_served", P_Served(c, g, res)>>,
         <<"C15", "error_delivered_once", P_ErrOnce(c, g)>>,
         <<"C15", "set_read_after_error_delivered", P_ErrNoLater(c, g)>>,
